@@ -13,7 +13,7 @@ from sa.report import Ctx
 from .common import generic_sweeps
 from sa.stutter import stutter_paths
 
-from .sat_common import SatRoles, check_add_sites, check_assumption_assertion, check_backtrack, check_heap_flags, check_variable_universe, check_input_copy
+from .sat_common import SatRoles, check_add_sites, check_assumption_assertion, check_assign, check_backtrack, check_heap_flags, check_variable_universe, check_input_copy
 
 EXPLANATION = (
     "Decides structural necessary conditions of 'INFEASIBLE only without a model / always returns within budgets' on "
@@ -43,6 +43,7 @@ def run(ctx: Ctx):
     ctx.assume("conflict-only cycles terminate because consecutive conflicts strictly lower the decision level (not verified)")
     check_heap_flags(ctx, "C02-O8")
     check_variable_universe(ctx, "C02-O10")
+    check_assign(ctx, "C02-O11")
     check_input_copy(ctx, "C02-O9")
     generic_sweeps(ctx, skip_stutter_modules=("solvor/sat.py",))
 
@@ -407,6 +408,11 @@ def _v_universe_from_clauses_only(tree):
     M.replace_stmt(g, lambda s: isinstance(s, ast.For) and M.src_is(s.iter, "assumptions") and M.src_has(s, "n_vars = max(n_vars"), [])
 
 
+def _v_assign_level_of_previous(tree):
+    g = M.find_func(tree, "solve_sat.assign")
+    M.replace_expr(g, lambda e: M.src_is(e, "len(trail_lim)"), M.expr("len(trail_lim) - 1"))
+
+
 def _v_flag_kept_on_skip(tree):
     g = M.find_func(tree, "solve_sat.pick_var")
     M.replace_stmt(g, lambda s: M.src_is(s, "in_heap[var] = False"), [])
@@ -460,6 +466,7 @@ VARIANTS = [
     M.Variant("input normalisation drops clauses with a repeated literal as tautologies (seed C02-C)", SAT, _v_tautology_test_on_raw_clause, "C02-O9"),
     M.Variant("twin: input normalisation that tests the de-duplicated literals", SAT, _t_tautology_test_on_kept_clause, None),
     M.Variant("variable count taken from the clauses only (original defect)", SAT, _v_universe_from_clauses_only, "C02-O10"),
+    M.Variant("assign records the previous decision level", SAT, _v_assign_level_of_previous, "C02-O11"),
     M.Variant("twin: reformat only", SAT, _t_reformat, None),
     M.Variant("twin: rename locals of the backtrack routine", SAT, _t_rename, None),
     M.Variant("twin: comparisons written the other way round", SAT, _t_budget_flipped, None),
